@@ -3,13 +3,17 @@ import ast, hashlib, os
 import z3
 from .ty import parse_type, sort_of, NONE
 
-REPO_SRC = os.environ.get('GVC_REPO_SRC', '/repo/src')
+def repo_src():
+    return os.environ.get('GVC_REPO_SRC', '/repo/src')
+
+
+REPO_SRC = repo_src()
 
 
 class Contract(object):
     def __init__(self, module, qualname, params, returns=None, requires=(), ensures=(), loops=None, pure=True, modifies=(),
                  theories=('word',), decreases=(), types=None, ghost=None, defaults=None, props=(), symbol_is_regexp=False,
-                 hints=None, bounded=None, note='', variant=''):
+                 hints=None, bounded=None, note='', variant='', asserts=(), verify=True):
         self.module, self.qualname = module, qualname
         self.variant = variant
         self.key = qualname + ('[%s]' % variant if variant else '')
@@ -28,6 +32,8 @@ class Contract(object):
         self.props = list(props)
         self.symbol_is_regexp = symbol_is_regexp
         self.hints = hints or {}
+        self.asserts = list(asserts)
+        self.verify = verify      # False: contract assumed at call sites, the function itself is only checked by its bounded stand-in
         self.is_method = '.' in qualname
         self.note = note
         self._fns = {}
@@ -39,7 +45,7 @@ class Contract(object):
 
     @property
     def path(self):
-        return os.path.join(REPO_SRC, *self.module.split('.')) + '.py'
+        return os.path.join(repo_src(), *self.module.split('.')) + '.py'
 
     def load(self):
         """(FunctionDef node, source segment) from the working tree"""
